@@ -134,5 +134,9 @@ func (g *G) CDXTreeDocument(maxNodes int) *sbom.Document {
 			d.Metadata.DocumentTypes = append(d.Metadata.DocumentTypes, &sbom.DocumentType{Type: &t, Name: nil, Description: &ds})
 		}
 	}
+	if g.Chance(0.3) {
+		// identifiers that resemble the reader's generated ones without being reserved
+		g.RenameSome(d.NodeList, KeptRefLike, 1+g.Int(3))
+	}
 	return d
 }
